@@ -71,6 +71,22 @@ extern "C" void h_main() {
             check_eq(again.imag(), ref.imag(), "terms kept: the component evaluates on demand to the same value (imaginary part)");
         }
     }
+    // history: asking an already computed component to prepare and compute again (the usual "make sure it is there" idiom after a bulk
+    // computation) changes neither its parts nor its values
+    if (!clear) {
+        const size_t nparts = X.parts.size();
+        X.prepare(); X.compute();
+        check(X.parts.size() == nparts, "prepare() on a computed component adds no parts");
+        bool threw = false; ComplexType again(0, 0);
+        try { again = X(FR[0][0], FR[0][1], FR[0][2]); } catch (std::exception&) { threw = true; }
+        check(!threw, "a computed component stays evaluable after a further prepare() / compute()");
+        if (!threw) {
+            ComplexType ref = Y(FR[0][0], FR[0][1], FR[0][2]);
+            check_eq(again.real(), ref.real(), "value unchanged by a further prepare() / compute() (real part)");
+            check_eq(again.imag(), ref.imag(), "value unchanged by a further prepare() / compute() (imaginary part)");
+        }
+        reach("prepared_again");
+    }
     // user-set tolerances of a component are handed to every part it creates (TwoParticleGF.h documents them as the knobs of the parts)
     {
         TwoParticleGF Z(*m.S, *m.H, Ops.getAnnihilationOperator(i1), Ops.getAnnihilationOperator(i2), Ops.getCreationOperator(i3), Ops.getCreationOperator(i4), rho);
